@@ -189,9 +189,17 @@ def oracle_run_moments(args):
     stay Hermitian and finite after every step, are zero after a collapse, and a collapse leaves rho pure on the active state"""
     import mudslide
     from mudslide.afssh import AugmentedFSSH
-    model = mudslide.models.scattering_models[args["model"]]()
-    t = AugmentedFSSH(model, [float(args["x0"])], [float(args["k"])], 0, dt=float(args["dt"]), max_steps=int(args["steps"]),
-                      seed_sequence=int(args["seed"]), electronic_integration=args["integ"], bounds=[-5, 5])
+    if args["model"] == "subotnik2d":
+        # two nuclear dimensions, unequal masses, optionally the diabatic representation (force matrix = -dV in (state,state,dim) layout)
+        from mudslide.models.scattering_models import Subotnik2D
+        model = Subotnik2D(mass=[2000.0, 500.0], **({"representation": args["representation"]} if args.get("representation") else {}))
+        t = AugmentedFSSH(model, [float(args["x0"]), 0.3], [float(args["k"]), 2.0], 0, dt=float(args["dt"]), max_steps=int(args["steps"]),
+                          seed_sequence=int(args["seed"]), electronic_integration=args["integ"],
+                          **({"augmented_integration": args["aug"]} if args.get("aug") else {}))
+    else:
+        model = mudslide.models.scattering_models[args["model"]]()
+        t = AugmentedFSSH(model, [float(args["x0"])], [float(args["k"])], 0, dt=float(args["dt"]), max_steps=int(args["steps"]),
+                          seed_sequence=int(args["seed"]), electronic_integration=args["integ"], bounds=[-5, 5])
     problems = []
     orig = AugmentedFSSH.surface_hopping
     info = {"steps": 0, "collapses": 0, "max_moment": 0.0}
@@ -220,8 +228,36 @@ def oracle_run_moments(args):
     return not problems, dict(info, problems=problems[:3]), {"problems": []}, "; ".join(problems[:2]) or "ok"
 
 
+@safe_oracle
+def oracle_hop_to_it_shift(args):
+    """through the real hop_to_it of A-FSSH (not hop_update alone): after an ACCEPTED hop - also one between exactly degenerate
+    states, where nothing is rescaled - the new active state's diagonal moments are exactly zero and the old state's are shifted by
+    the same amount; a rejected hop leaves the moments alone"""
+    from .. import hopcommon as hc
+    c = {k: (np.array(v) if isinstance(v, list) else v) for k, v in args["case"].items()}
+    r = hc.impl_hop(c, "AugmentedFSSH")
+    m = r["moments"]
+    n = c["n"]
+    s_, t_ = int(c["s"]), int(c["t"])
+    dm = np.array(c["d"], dtype=np.float64) * float(c.get("afssh_scale", 1.0))
+    r0 = lambda j: 0.1 * (j + 1) * (1.0 + np.arange(n))
+    problems = []
+    if r["state"] == t_:
+        if np.any(m["delP_target"] != 0) or np.any(m["delR_target"] != 0):
+            problems.append("after the accepted hop %d->%d (gap %r) the new active state's diagonal moments are delP %r, delR %r"
+                            % (s_, t_, float(c["E"][t_] - c["E"][s_]), m["delP_target"].tolist(), m["delR_target"].tolist()))
+        if not allclose(np.real(m["delP_source"]), dm, float(np.max(np.abs(dm))) + 1e-300) or \
+                not allclose(np.real(m["delR_source"]), r0(s_) - r0(t_), 1.0):
+            problems.append("the old state's diagonal moments were not shifted by the new state's")
+    else:
+        if not (np.array_equal(np.real(m["delP_target"]), -0.5 * dm) and np.array_equal(np.real(m["delP_source"]), 0.5 * dm)
+                and np.array_equal(np.real(m["delR_target"]), r0(t_))):
+            problems.append("a rejected hop changed the moments")
+    return not problems, {"state": r["state"], "problems": problems[:2]}, {"problems": []}, "; ".join(problems[:2]) or "ok"
+
+
 from .. import runcommon as rc
-ORACLES = {"whole_run": rc.oracle_whole_run, "run_moments": oracle_run_moments, "hermitian": oracle_hermitian, "hop_shift": oracle_hop_shift, "collapse": oracle_collapse,
+ORACLES = {"hop_to_it_shift": oracle_hop_to_it_shift, "whole_run": rc.oracle_whole_run, "run_moments": oracle_run_moments, "hermitian": oracle_hermitian, "hop_shift": oracle_hop_shift, "collapse": oracle_collapse,
            "integrators_agree": oracle_integrators_agree, "initial_zero": oracle_initial_zero}
 
 
@@ -286,6 +322,23 @@ def run(ctx):
         ok, obs, req, text = oracle_hop_shift(a)
         if not ok:
             ctx.oracle_fail("hop-update-through-view" if tgt < N - 1 else "hop-shift", "hop_shift", a, obs, req, text)
+
+    # ---------- the shift through the real hop_to_it, incl. hops between EXACTLY degenerate states ----------
+    from .. import hopcommon as hc
+    for i in range(ctx.budget(60, 2000)):
+        c = hc.make_case(rng, kind=["down", "up-far", "up-near"][i % 3])
+        c.pop("pre", None)
+        if i % 3 == 0:
+            E_ = np.array(c["E"])
+            E_[c["t"]] = E_[c["s"]]              # exactly degenerate: the hop is allowed, nothing is rescaled
+            c["E"] = E_
+            ctx.count("hop_to_it_shift:exactly_degenerate")
+        a = {"case": c}
+        ok, obs, req, text = oracle_hop_to_it_shift(a)
+        ctx.case(("hop-to-it-shift", c["N"], c["n"], obs.get("state") == c["t"]) if c["N"] >= 3 else None)
+        ctx.count("hop_to_it_shift:" + ("accepted" if obs.get("state") == c["t"] else "rejected"))
+        if not ok:
+            ctx.oracle_fail("hop-to-it-shift", "hop_to_it_shift", a, obs, req, text)
 
     # ---------- moment propagation ----------
     lines, keep = [], []
@@ -414,6 +467,9 @@ def run(ctx):
     for i in range(ctx.budget(6, 80)):
         a = {"model": ["simple", "dual", "extended"][i % 3], "integ": ["exp", "linear-rk4"][(i // 3) % 2], "x0": -4.0,
              "k": float(rng.uniform(8, 25)), "dt": 20.0, "steps": 400, "seed": int(rng.integers(1, 2 ** 31))}
+        if i % 3 == 2:
+            a.update(model="subotnik2d", representation=["diabatic", None][(i // 6) % 2], aug=["exp", "rk4"][(i // 3) % 2], integ="exp",
+                     x0=-3.0, dt=5.0, steps=120)
         ok, obs, req, text = oracle_run_moments(a)
         ctx.case(("run-moments", a["model"], a["integ"], int(obs["collapses"]) > 0))
         ctx.count("afssh_runs:" + a["integ"])
